@@ -21,6 +21,6 @@ NOT_APPLICABLE = {
     'C14': 'every mechanism is out of reach: Env is Vec<BTreeMap<String,T>> (no vstd spec; Kani > 7 min for 4 operations), mux_envs '
            'iterates BTreeMaps, assignment/scoping/branch merging are arms of compile.',
     'C03': UNDER_CONSTRUCTION, 'C08': UNDER_CONSTRUCTION, 'C09': UNDER_CONSTRUCTION,
-    'C10': UNDER_CONSTRUCTION, 'C12': UNDER_CONSTRUCTION, 'C13': UNDER_CONSTRUCTION, 'C16': UNDER_CONSTRUCTION,
+    'C10': UNDER_CONSTRUCTION, 'C12': UNDER_CONSTRUCTION, 'C13': UNDER_CONSTRUCTION,
     'C17': UNDER_CONSTRUCTION,
 }
